@@ -125,6 +125,9 @@ class Walker:
         M = (list(x.M) if x.is_ttm else None) if (M is None and ttm == x.is_ttm) else M
         if ttm and M is None:
             M = list(N)
+        if ttm == x.is_ttm and list(x.N) == N and (not ttm or list(x.M) == M) and self.rng.random() < 0.08:
+            self.ctx.count('same_object_as_both_operands')
+            return x                # THE SAME object in two argument positions (x - x, cat((x, x)), dot(x, x) ...)
         cands = [o for o in self.pool if o is not x and o.is_ttm == ttm and list(o.N) == N and (not ttm or list(o.M) == M)]
         if cands and self.rng.random() < 0.5 and not self.views:
             return self.rng.choice(cands)
@@ -396,6 +399,16 @@ def _(w):
     M = [w.rng.choice((1, 2, 3)) for _ in N]
     A = gens.values(M + N, w.dt, 'gauss', w.g)
     return 'TT(dense,shape)', lambda a: w.tt.TT(a, [(m, n) for m, n in zip(M, N)], eps=w.rng.choice((1e-12, 0.2))), (A,)
+
+
+@op('TT(x.cores)')
+def _(w):
+    """A second object built from the core LIST of an existing one (the caller hands `x.cores` itself, or a copy of the list): the two objects share core tensors - as documented for
+    the constructor - but not the list, so a later set_core on either must leave the other alone."""
+    x = w.pick()
+    if w.rng.random() < 0.5:
+        return 'TT(x.cores)', lambda a: w.tt.TT(a.cores), (x,), {'_model': lambda a: _m(a, _n(a))}
+    return 'TT(list(x.cores))', lambda a: w.tt.TT(list(a.cores)), (x,), {'_model': lambda a: _m(a, _n(a))}
 
 
 @op('TT(numpy)')
@@ -712,7 +725,7 @@ def _(w):
 def _(w):
     x = w.pick()
     d = len(x.N)
-    k = d if x.is_ttm else w.rng.randint(1, d)
+    k = w.rng.randint(1, d)
     padding = tuple((w.rng.randint(0, 2), w.rng.randint(0, 2)) for _ in range(k))
     value = w.rng.choice((0.0, 1.5))
     kw = {}
